@@ -770,6 +770,11 @@ func (t *trans) call(c *ast.CallExpr) string {
 				}
 			}
 		}
+		if f.Sel.Name == "Root" && len(c.Args) == 0 {
+			// the root element of the document parsed just before the translated range: one unknown of the range
+			t.addExtern("docRoot", "(Option Element)")
+			return "env.docRoot"
+		}
 		if f.Sel.Name == "Cookies" && len(c.Args) == 0 {
 			t.addExtern("cookies", "HTTPRequest → (List (Option Cookie))")
 			return "(env.cookies " + t.derefd(f.X) + ")"
@@ -1581,15 +1586,44 @@ func (t *trans) function(name string) {
 				return true
 			})
 		}
+		onlyRoot := map[string]bool{}
+		notOnlyRoot := map[string]bool{}
+		for _, s := range body[start:] {
+			ast.Inspect(s, func(n ast.Node) bool {
+				if c, ok := n.(*ast.CallExpr); ok {
+					if sel, ok := c.Fun.(*ast.SelectorExpr); ok && sel.Sel.Name == "Root" && len(c.Args) == 0 {
+						if id, ok := sel.X.(*ast.Ident); ok {
+							onlyRoot[id.Name] = true
+							return false
+						}
+					}
+				}
+				if id, ok := n.(*ast.Ident); ok {
+					notOnlyRoot[id.Name] = true
+				}
+				return true
+			})
+		}
 		for _, n := range orderNames {
 			if !used[n] || n == sp.state {
 				continue
+			}
+			if onlyRoot[n] && !notOnlyRoot[n] {
+				continue // the parsed document: only its root is looked at (env.docRoot)
 			}
 			obj := t.info.Defs[defined[n].(*ast.Ident)]
 			if obj == nil {
 				continue
 			}
-			params = append(params, "("+leanIdent(n)+" : "+t.leanTypeOf(obj.Type(), name)+")")
+			// a local whose type is outside the subset is left out: if the translated range really reads it (and does not just
+			// re-declare the name), the generated definition does not compile and the obligation fails — never a silent guess
+			f0 := len(t.fails)
+			ty := t.leanTypeOf(obj.Type(), name)
+			if len(t.fails) > f0 {
+				t.fails = t.fails[:f0]
+				continue
+			}
+			params = append(params, "("+leanIdent(n)+" : "+ty+")")
 		}
 		body = body[start:]
 	}
@@ -1791,12 +1825,15 @@ func (t *trans) leanTypeOf(ty types.Type, where string) string {
 			return "Int"
 		}
 	case *types.Pointer:
+		if n, ok := x.Elem().(*types.Named); ok && isErrorTypeName(n.Obj().Name()) {
+			return "GoError" // a pointer to an error struct is the error value
+		}
 		return "(Option " + t.leanTypeOf(x.Elem(), where) + ")"
 	case *types.Slice:
 		return "(List " + t.leanTypeOf(x.Elem(), where) + ")"
 	case *types.Named:
 		n := x.Obj().Name()
-		if n == "error" {
+		if n == "error" || isErrorTypeName(n) {
 			return "GoError"
 		}
 		if x.Obj().Pkg() != nil && x.Obj().Pkg().Path() == "net/http" {
@@ -1834,6 +1871,8 @@ func translate(repo string, p *pkgFiles, outPath string) {
 		{fn: "ServeIDPInitiated", recv: "IdentityProvider", as: "idpInitiatedSelect", state: "req",
 			anchor: "for _, spssoDescriptor := range req.ServiceProviderMetadata.SPSSODescriptors", until: "if req.ACSEndpoint == nil"},
 		{fn: "Validate", recv: "IdpAuthnRequest", mutRecv: true, anchor: "mustHaveDestination :="},
+		{fn: "ValidateLogoutResponseForm", recv: "ServiceProvider", as: "logoutFormTail", anchor: "if err := sp.validateSignature(doc.Root()); err != nil {"},
+		{fn: "ValidateLogoutResponseRedirect", recv: "ServiceProvider", as: "logoutRedirectTail", anchor: "if err := sp.validateSignature(doc.Root()); err != nil {"},
 		{fn: "ServeSSO", recv: "IdentityProvider", as: "serveSSOGate", trace: true, until: "assertionMaker := idp.AssertionMaker"},
 	}
 	rootExterns := map[string]bool{"NewIdpAuthnRequest": true, "Validate": true, "validateSignature": true, "decryptElement": true, "unmarshalElement": true, "findChildren": true,
